@@ -1,7 +1,19 @@
 import RnaVerif.Model.SecStr
-/-! # C01 — BPSEQ <-> dot-bracket conversion is lossless for every encoder (property theorems) -/
+import RnaVerif.Model.Levels
+import RnaVerif.Lemmas.Decode
+import RnaVerif.Lemmas.Regions
+import RnaVerif.Lemmas.MkDB
+import RnaVerif.Lemmas.FromDB
+/-! # C01 — BPSEQ <-> dot-bracket conversion is lossless for every encoder (property theorems)
+
+All statements are about the executable model `RnaVerif.SecStr` (Model/SecStr.lean), which is tied
+to `/repo/src/rnapolis/common.py` by the generated tables (`RnaVerif.Gen`) and by the differential
+correspondence check.  Proofs live in `Lemmas/{Decode,Regions,MkDB,FromDB}.lean`.
+-/
 namespace RnaVerif.Props.C01
 open RnaVerif RnaVerif.SecStr
+
+/-! ## bridges to the generated tables -/
 
 /-- bridge: the encoder's bracket list is the decoder's opening/closing alphabets zipped, there are
 30 bracket types, and FCFS has exactly that many levels available -/
@@ -19,5 +31,189 @@ theorem conflict_sites_agree (k l m n : Nat) :
     first
       | rfl
       | (simp only [Gen.conflictConvert, Gen.conflictFcfs, Gen.conflictAll, conflictSpec]; grind)
+
+/-- bridge: every token of level `< 30` written with the encoder's bracket list is read back as
+the same token by the decoder's alphabets, and is a character of the dot-bracket alphabet -/
+theorem alphabet_roundtrip (t : Tok) (h : t.levelLt 30) :
+    tokOfChar (charOfTok Gen.encBrackets t) = t ∧ IsDBChar (charOfTok Gen.encBrackets t) := by
+  have h' : t.levelLt Gen.encBrackets.length := by rw [brackets_agree.2.1]; exact h
+  exact ⟨tok_roundtrip h', char_alphabet h'⟩
+
+example : (Tok.op 29).levelLt 30 ∧ (Tok.cl 4).levelLt 30 :=
+  ⟨by show 29 < 30; decide, by show 4 < 30; decide⟩
+
+/-! ## 1. validity -/
+
+/-- `valid` means: indices are `1..N` in file order; every partner is `0` (unpaired) or lies in
+`1..N`, is not the entry itself, and points back (symmetry) -/
+theorem valid_iff (es : List Entry) :
+    valid es = true ↔
+      ∀ k (h : k < es.length), es[k].idx = k + 1 ∧
+        (es[k].pair = 0 ∨ (1 ≤ es[k].pair ∧ es[k].pair ≤ es.length ∧ es[k].pair ≠ k + 1 ∧
+          partnerOf es es[k].pair = k + 1)) := by
+  rw [SecStr.valid_iff]
+  constructor
+  · intro v k h
+    refine ⟨v.idx_get k h, ?_⟩
+    rcases v.pair_get k h with h0 | ⟨a, b, c⟩
+    · exact Or.inl h0
+    · by_cases h0 : es[k].pair = 0
+      · exact Or.inl h0
+      · exact Or.inr ⟨by omega, a, b, c⟩
+  · intro h
+    exact ⟨fun k hk => (h k hk).1, fun k hk => by
+      rcases (h k hk).2 with h0 | ⟨_, a, b, c⟩
+      · exact Or.inl h0
+      · exact Or.inr ⟨a, b, c⟩⟩
+
+/-- the running example: `ACGUACGU` with pairs 1-5, 2-7, 6-8 (an H-type pseudoknot plus a kissing
+stem): three one-pair stems, conflicts 0–1 and 1–2 -/
+def exEs : List Entry :=
+  [⟨1, 'A', 5⟩, ⟨2, 'C', 7⟩, ⟨3, 'G', 0⟩, ⟨4, 'U', 0⟩, ⟨5, 'A', 1⟩, ⟨6, 'C', 8⟩, ⟨7, 'G', 2⟩,
+   ⟨8, 'U', 6⟩]
+
+/-- a second example with a stem of length two: `((..[[))..]]`-like, pairs 1-8, 2-7, 5-12, 6-11 -/
+def exEs2 : List Entry :=
+  [⟨1, 'G', 8⟩, ⟨2, 'G', 7⟩, ⟨3, 'A', 0⟩, ⟨4, 'A', 0⟩, ⟨5, 'C', 12⟩, ⟨6, 'C', 11⟩, ⟨7, 'C', 2⟩,
+   ⟨8, 'C', 1⟩, ⟨9, 'A', 0⟩, ⟨10, 'A', 0⟩, ⟨11, 'G', 6⟩, ⟨12, 'G', 5⟩]
+
+example : valid exEs = true ∧ valid exEs2 = true := by decide
+example : regions exEs = [⟨1, 5, 1⟩, ⟨2, 7, 1⟩, ⟨6, 8, 1⟩] ∧
+    regions exEs2 = [⟨1, 8, 2⟩, ⟨5, 12, 2⟩] := by decide
+
+/-! ## 2. the stems partition the 5'→3' pairs -/
+
+/-- **regions_cover**: for a valid BPSEQ, concatenating the pairs of all regions (in region order,
+outermost pair first) gives exactly the list of 5'→3' pairs, which has no duplicates: every pair
+lies in exactly one stem. -/
+theorem regions_cover {es : List Entry} (hv : valid es = true) :
+    (regions es).flatMap stemPairs = pairs0 es ∧ (pairs0 es).Nodup :=
+  have v := (SecStr.valid_iff es).mp hv
+  ⟨SecStr.regions_cover v, pairs0_nodup v⟩
+
+/-- the same for what the writer actually expands (`triples`, with levels) -/
+theorem regions_cover_triples {es : List Entry} (hv : valid es = true) (lvs : List Nat)
+    (hlen : lvs.length = (regions es).length) :
+    (triples (regions es) lvs).map (fun m => (m.1, m.2.1)) = pairs0 es :=
+  SecStr.regions_cover_triples ((SecStr.valid_iff es).mp hv) lvs (by omega)
+
+example : valid exEs2 = true ∧ [0, 1].length = (regions exEs2).length ∧
+    pairs0 exEs2 = [(0, 7), (1, 6), (4, 11), (5, 10)] := by decide
+
+/-! ## 3. the outer-pair conflict test decides crossing of whole stems -/
+
+/-- **cross_uniform**: for two distinct regions of a valid BPSEQ, the code's conflict test on the
+outer pairs holds iff some pair of `r` crosses some pair of `s`, iff every pair of `r` crosses
+every pair of `s`. -/
+theorem cross_uniform {es : List Entry} (hv : valid es = true) {r s : Region}
+    (hr : r ∈ regions es) (hs : s ∈ regions es) (hne : r ≠ s) :
+    (conflictSpec r.i r.j s.i s.j = true ↔ ∃ a ∈ stemPairs r, ∃ b ∈ stemPairs s, crosses a b) ∧
+    (conflictSpec r.i r.j s.i s.j = true ↔ ∀ a ∈ stemPairs r, ∀ b ∈ stemPairs s, crosses a b) :=
+  SecStr.cross_uniform ((SecStr.valid_iff es).mp hv) hr hs hne
+
+example : valid exEs2 = true ∧ (⟨1, 8, 2⟩ : Region) ∈ regions exEs2 ∧
+    (⟨5, 12, 2⟩ : Region) ∈ regions exEs2 ∧ (⟨1, 8, 2⟩ : Region) ≠ ⟨5, 12, 2⟩ ∧
+    conflictSpec 1 8 5 12 = true := by decide
+
+/-! ## 4. main theorem: whatever `mkDB` writes decodes to exactly the structure's pairs -/
+
+/-- `s` is a lossless dot-bracket for `es`: same length, only characters of the dot-bracket
+alphabet, the per-type stack decoder succeeds (never pops an empty stack), ends with every stack
+empty (balanced per bracket type), and returns exactly the 5'→3' pairs of `es`, each once -/
+def Lossless (es : List Entry) (s : List Char) : Prop :=
+  s.length = es.length ∧ (∀ c ∈ s, IsDBChar c) ∧
+  ∃ st, decodeChars s = some st ∧ (∀ t, st.stacks t = []) ∧ st.out.Nodup ∧
+    ∀ p, p ∈ st.out ↔ p ∈ pairs0 es
+
+/-- **decode_mkDB**: for a valid BPSEQ and *any* proper level assignment with levels `< 30`
+(one level per region; conflicting regions on different levels), `__make_dot_bracket` succeeds and
+its output is lossless. -/
+theorem decode_mkDB {es : List Entry} {lvs : List Nat} (hv : valid es = true)
+    (hlen : lvs.length = (regions es).length) (hlv : ∀ l ∈ lvs, l < 30)
+    (hp : proper (adjOf conflictSpec (regions es)) lvs = true) :
+    ∃ s, mkDB es.length (regions es) lvs = .ok s ∧ Lossless es s := by
+  have hlv' : ∀ l ∈ lvs, l < Gen.encBrackets.length := by rw [brackets_agree.2.1]; exact hlv
+  obtain ⟨s, st, h1, h2, h3, h4, h5, h6, h7⟩ :=
+    decode_mkDB_P ((SecStr.valid_iff es).mp hv) hlen hlv' (properP_of_proper hp)
+  exact ⟨s, h1, h2, h3, st, h4, h5, h6, h7⟩
+
+/-- in particular the decoded list is a permutation of the structure's list of 5'→3' pairs -/
+theorem lossless_perm {es : List Entry} {s : List Char} (hv : valid es = true)
+    (h : Lossless es s) : ∃ st, decodeChars s = some st ∧ st.out.Perm (pairs0 es) := by
+  obtain ⟨_, _, st, h1, _, h3, h4⟩ := h
+  exact ⟨st, h1, (List.perm_ext_iff_of_nodup h3 (regions_cover hv).2).mpr h4⟩
+
+example : valid exEs = true ∧ [0, 1, 0].length = (regions exEs).length ∧
+    (∀ l ∈ [0, 1, 0], l < 30) ∧ proper (adjOf conflictSpec (regions exEs)) [0, 1, 0] = true ∧
+    (mkDB exEs.length (regions exEs) [0, 1, 0]).toOption =
+      some ['(', '[', '.', '.', ')', '(', ']', ')'] := by
+  decide
+
+/-- no two crossing pairs are written on the same bracket type -/
+theorem written_noncrossing {es : List Entry} {lvs : List Nat} (hv : valid es = true)
+    (hp : proper (adjOf conflictSpec (regions es)) lvs = true) :
+    ∀ m ∈ triples (regions es) lvs, ∀ m' ∈ triples (regions es) lvs, m.2.2 = m'.2.2 →
+      ¬ crosses (m.1, m.2.1) (m'.1, m'.2.1) := by
+  have wf := wf_triples ((SecStr.valid_iff es).mp hv) lvs (properP_of_proper hp)
+  intro m hm m' hm' hl hc
+  rcases hc with h | h
+  · exact wf.nocross m hm m' hm' hl h
+  · exact wf.nocross m' hm' m hm hl.symm h
+
+example : valid exEs = true ∧ proper (adjOf conflictSpec (regions exEs)) [0, 1, 0] = true ∧
+    triples (regions exEs) [0, 1, 0] = [(0, 4, 0), (1, 6, 1), (5, 7, 0)] := by decide
+
+/-! ## 5. first come, first served -/
+
+/-- **fcfs_lossless**: whenever FCFS finds levels for a valid BPSEQ (i.e. 30 levels suffice for its
+greedy choice; otherwise the code raises `StopIteration`), they are one per region, below 30 and
+proper w.r.t. the conflict graph, and the dot-bracket `fcfs` returns is lossless. -/
+theorem fcfs_lossless {es : List Entry} {lvs : List Nat} (hv : valid es = true)
+    (hf : fcfsLevels Gen.conflictFcfs Gen.fcfsAvail (regions es) = some lvs) :
+    lvs.length = (regions es).length ∧ (∀ l ∈ lvs, l < 30) ∧ ProperP (regions es) lvs ∧
+    ∃ s, fcfs es = .ok s ∧ Lossless es s := by
+  obtain ⟨h1, h2, h3⟩ := fcfs_proper (fun k l m n => (conflict_sites_agree k l m n).2.1)
+    (by rw [brackets_agree.2.2]; decide) hf
+  have h2' : ∀ l ∈ lvs, l < Gen.encBrackets.length := by
+    rw [brackets_agree.2.1, ← brackets_agree.2.2]; exact h2
+  refine ⟨h1, by rw [← brackets_agree.2.2]; exact h2, h3, ?_⟩
+  obtain ⟨s, st, a1, a2, a3, a4, a5, a6, a7⟩ :=
+    decode_mkDB_P ((SecStr.valid_iff es).mp hv) h1 h2' h3
+  exact ⟨s, by rw [fcfs_eq_mkDB hf]; exact a1, a2, a3, st, a4, a5, a6, a7⟩
+
+example : valid exEs = true ∧
+    fcfsLevels Gen.conflictFcfs Gen.fcfsAvail (regions exEs) = some [0, 1, 0] := by decide
+
+/-! ## 6. converse direction: dot-bracket → BPSEQ → dot-bracket -/
+
+/-- **roundtrip_db**: whatever structure line `s` the decoder accepts (in particular every balanced
+one), converting its pairs to BPSEQ over a sequence of the same length gives a valid BPSEQ with that
+sequence whose 5'→3' pairs are exactly the decoded pairs.  (Emptiness of the final stacks is not
+needed for this.) -/
+theorem roundtrip_db {s seq : List Char} {st : St} (hd : decodeChars s = some st)
+    (hlen : seq.length = s.length) :
+    valid (fromDB seq st.out) = true ∧ (fromDB seq st.out).length = s.length ∧
+    sequence (fromDB seq st.out) = seq ∧ ∀ p, p ∈ pairs0 (fromDB seq st.out) ↔ p ∈ st.out := by
+  have ok : PairsOK seq.length st.out := hlen ▸ decodeChars_pairsOK hd
+  exact ⟨(SecStr.valid_iff _).mpr (fromDB_valid ok), by rw [fromDB_length, hlen],
+    fromDB_sequence _ _, pairs0_fromDB ok⟩
+
+/-- … and writing that BPSEQ back with any proper level assignment decodes to the same set of
+pairs: dot-bracket → BPSEQ → dot-bracket preserves the pairs. -/
+theorem roundtrip_db_back {s seq : List Char} {st : St} (hd : decodeChars s = some st)
+    (hlen : seq.length = s.length) {lvs : List Nat}
+    (hl : lvs.length = (regions (fromDB seq st.out)).length) (hlv : ∀ l ∈ lvs, l < 30)
+    (hp : proper (adjOf conflictSpec (regions (fromDB seq st.out))) lvs = true) :
+    ∃ s' st', mkDB s.length (regions (fromDB seq st.out)) lvs = .ok s' ∧ s'.length = s.length ∧
+      decodeChars s' = some st' ∧ (∀ t, st'.stacks t = []) ∧ ∀ p, p ∈ st'.out ↔ p ∈ st.out := by
+  obtain ⟨hv, hn, _, hps⟩ := roundtrip_db hd hlen
+  obtain ⟨s', h1, h2, _, st', h3, h4, _, h5⟩ := decode_mkDB hv hl hlv hp
+  rw [hn] at h1 h2
+  exact ⟨s', st', h1, h2, h3, h4, fun p => (h5 p).trans (hps p)⟩
+
+example : ∃ st, decodeChars ['(', '[', '.', '.', ')', '(', ']', ')'] = some st ∧
+    st.out = [(0, 4), (1, 6), (5, 7)] ∧ ['A', 'C', 'G', 'U', 'A', 'C', 'G', 'U'].length = 8 ∧
+    fromDB ['A', 'C', 'G', 'U', 'A', 'C', 'G', 'U'] st.out = exEs :=
+  ⟨_, rfl, by decide, by decide, by decide⟩
 
 end RnaVerif.Props.C01
